@@ -33,6 +33,16 @@ def verify_one(args):
     out = {"function": qual, "obligations": [], "covers": [], "error": None, "undecided_reason": None,
            "assumptions": [], "paths": 0, "file": None, "yield_sites": 0}
     try:
+        import resource
+        import signal
+        # a runaway symbolic execution (path or term explosion) must end as "undecided", not take the machine down
+        lim = int(os.environ.get("PYVC_MEM_GB", "32")) << 30
+        resource.setrlimit(resource.RLIMIT_AS, (lim, lim))
+
+        def _too_long(*_):
+            raise TimeoutError("VC generation exceeded its time budget")
+        signal.signal(signal.SIGALRM, _too_long)
+        signal.alarm(int(os.environ.get("PYVC_GEN_S", "900")))
         import z3
         from pyvc.dsl import REG
         from pyvc.source import SourceIndex
@@ -53,10 +63,12 @@ def verify_one(args):
             fn, mod, _ = src.find(c)
             ex = Executor(reg, c, fn, mod, src, aliases=getattr(c, "aliases", None))
             obls, covers = ex.run()
-        except (Untranslatable, ContractError) as e:
+        except (Untranslatable, ContractError, MemoryError, TimeoutError) as e:
+            signal.alarm(0)
             out["undecided_reason"] = f"{type(e).__name__}: {e}"
             out["wall_s"] = round(time.time() - t0, 3)
             return out
+        signal.alarm(0)
         import ast as _ast, hashlib
         h = hashlib.sha1(_ast.dump(fn).encode())
         for q in sorted(ex.inlined_nodes):
